@@ -83,8 +83,7 @@ def url_reference(value: bytes):
             out.append(("network.url.password", unquote_to_bytes(pw), "", p, p + len(pw)))
             p += len(pw)
         if host:
-            if userinfo:
-                p += 1
+            p = off + (len(userinfo) + 1 if b"@" in a else 0)  # the host text starts right after the '@' (C12: the span selects the component's text)
             h = unquote_to_bytes(host)
             if h.startswith(b"["):
                 if h.endswith(b"]"):
@@ -148,15 +147,17 @@ def esc(rng, s: bytes, p=0.3):
 
 def gen_url(rng):
     scheme = rng.choice([b"http", b"https", b"ftp", b"HTTP", b"HtTp", b"hTTps"])
-    host = rng.choice([gen_domain(rng), gen_ip(rng), b"0x7f.0x0.0x0.0x1", b"0177.0.0.01", b"2130706433", b"[::1]", b"[2001:db8::7]", esc(rng, gen_domain(rng), 0.2)])
+    host = rng.choice([gen_domain(rng), gen_ip(rng), b"0x7f.0x0.0x0.0x1", b"0177.0.0.01", b"2130706433", b"[::1]", b"[2001:db8::7]", b"[::1%2e]", b"[::%31]", b"[%31::1]", esc(rng, gen_domain(rng), 0.2)])
     user = rng.choice([b"", b"", b"john", b"john.doe", esc(rng, b"a b", 0.5)])
-    pw = rng.choice([b"", b"", b"secret", b"p%40ss"]) if user else b""
+    pw = rng.choice([b"", b"", b"secret", b"p%40ss"])
+    colon = bool(pw) or rng.random() < 0.2  # 'user:@host' - a colon with an empty password
+    at = bool(user or pw) or colon or rng.random() < 0.1  # '@host' - an empty userinfo
     port = rng.choice([b"", b"", b":80", b":8080", b":"])
     segs = [rng.choice([b"a", b"b", b".", b"..", b"", b"x%2Fy", b"%41%2e", esc(rng, b"dir", 0.3), b"file.txt"]) for _ in range(rng.randint(0, 5))]
     path = (b"/" + b"/".join(segs)) if segs or rng.random() < 0.5 else b""
     query = rng.choice([None, None, b"", b"q=1", b"a=%41&b=%2f", b"x"])
     frag = rng.choice([None, None, b"frag", b"top%20x", b"sec?x=1"])
-    u = scheme + b"://" + (user + (b":" + pw if pw else b"") + b"@" if user else b"") + host + port + path
+    u = scheme + b"://" + (user + (b":" + pw if colon else b"") + b"@" if at else b"") + host + port + path
     if query is not None:
         u += b"?" + query
     if frag is not None:
@@ -175,7 +176,8 @@ def bounded_url_parts(tier, seed):
     rng = random.Random(seed)
     failures, n, distinct = [], 0, set()
     fixed = [b"http://a.com/p?#frag", b"http://a.com/%41%42/x?q=%41#f", b"http://%61.com/p", b"http://a.com/../a", b"http://example.com/a//../b", b"http://example.com/a/b?#frag",
-             b"http://example.com/page#section?x=1", b"http://update.example.com./x", b"http://example.com/a%2fb?next=%3a%2f", b"http://a.com/./x/../y/.", b"https://john:pw@www.example.com:123/f/?tag=n#top"]
+             b"http://example.com/page#section?x=1", b"http://update.example.com./x", b"http://example.com/a%2fb?next=%3a%2f", b"http://a.com/./x/../y/.", b"https://john:pw@www.example.com:123/f/?tag=n#top",
+             b"http://@example.com/x", b"http://u:@example.com/x", b"http://:pw@example.com/x", b"http://:@example.com/x", b"http://a@b@example.com/x"]
     cases = fixed + [gen_url(rng) for _ in range(400 if tier == "quick" else 8000)]
     for text in cases:
         data = b"see " + text + b" now"
